@@ -344,7 +344,8 @@ class EquationSolver(object):
         had_evaluation_errors = False
         last_error = False
         # 'not (error <= tolerance)' rather than 'error > tolerance': a NaN error (diverged iterates) must not end the loop
-        while not (relative_error <= err_toler):
+        # At least one sweep per period: with a tolerance >= 1 the start value of the error (1.) would already pass the test
+        while num_tries == 0 or not (relative_error <= err_toler):
             if is_trace_step:
                 #Logger('\t'.join([str(num_tries), str(relative_error)] + [str(initial[x]) for x in trace_keys]),
                 #       log='step')
